@@ -27,39 +27,52 @@ THEOREMS = [
 LEAN_MODULES = ["PorepyVerif.C37.Props"]
 AUDIT = "PorepyVerif/C37/Audit.lean"
 DRIVER = "PorepyVerif/C37/Driver.lean"
-N = {"quick": 110, "thorough": 2500}
+N = {"quick": 80, "thorough": 1000}
 TOL = 1e-9
 RULE = ("a case = 1-8 diagonal blocks of sizes 1-6 (1x1 blocks frequent; thorough: up to 14 blocks); block values = row-wise strictly "
         "diagonally dominant small integers or dyadics (so binary64 holds them exactly and the exact inverse has moderate rationals), "
         "off-diagonal entries zero with probability 0/0.3/0.6/0.9 (blocks may split into finer components), rows of a block optionally "
         "shuffled (zero diagonal entries, pivoting needed); the block-diagonal matrix is stored as csr or csc, optionally with unsorted "
         "indices inside a line, explicitly stored zeros inside the blocks and zero entries in the size vector; the permuted matrix "
-        "M[pr[i], pc[j]] = BD[i, j] uses random row/column permutations and the same storage variations. Streams: 83% valid, 10% "
+        "M[pr[i], pc[j]] = BD[i, j] uses random row/column permutations and the same storage variations. Streams: 84% valid, 10% "
         "malformed (singular block by a zero row / zero column / duplicate row; non-square or one-sided-empty matrix; empty matrix), "
-        "4% duplicate stored entries, 3% zeros stored outside the block pattern of the permuted matrix. Non-trivial = valid stream "
+        "4% duplicate stored entries, 2% zeros stored outside the block pattern of the permuted matrix. Non-trivial = valid stream "
         "with >= 2 blocks and a block of size >= 2; distinct = distinct cases")
 TRUSTED = [
     "modelled, not verified: np.linalg.inv / LAPACK getrf+getri inside numba and numpy (model: exact Gauss-Jordan over the rationals, "
     "compared with tolerance 1e-9), binary64 rounding, numba prange, scipy csr/csc constructors, ArraySlicer slicing (property C36), "
     "np.searchsorted on the block-wise monotone index array, networkx.connected_components (model: label merging over the edge list; "
-    "compared as partitions, the order of the components is networkx's)",
+    "compared as partitions, the order of the components is networkx's), the ValueError of ArraySlicer on empty index arrays (0x0 matrix, "
+    "mirrored in the harness, not in the Lean model)",
     "the reading of a list-of-rows matrix as a Mathlib matrix (toMatrix) used by gaussJordan_correct_partial",
     "the abstract theorems (blockdiag_inv, perm_inv, permuted_blockdiag_inv, components_give_blocks) are about Mathlib matrices over any field; "
     "they are tied to the executable model only through the run-time identity checks of the driver and the correspondence check",
+    "the real code runs in child processes with NUMBA_NUM_THREADS=2 (a crash of the compiled kernel is an outcome, not a harness error); "
+    "cases that store entries outside the block pattern get a process of their own",
+    "on singular blocks only the python path and the permutation search are compared: numba loses exceptions raised inside prange, so the "
+    "numba paths answer ValueError or return unspecified numbers depending on thread scheduling (counted in input_distribution.numba_on_singular)",
 ]
 EXPLANATION = (
-    "FULL (algebra): blockdiag_inv, perm_inv, permuted_blockdiag_inv are proved for Mathlib matrices over an arbitrary field, and "
-    "components_give_blocks proves that any row/column classification closed under the non-zero pattern of an invertible matrix has "
-    "square, two-sided invertible blocks. CORE (executable model): theorems gaussJordan_left_inverse / gaussJordan_correct_partial "
-    "(if the exact Gauss-Jordan returns X then X*A = I on lists, and A*X = I, A^-1 = X as Mathlib matrices; completeness, i.e. "
-    "'nonsingular implies some', is NOT proved), invertAll_correct, components_closed / components_minimal / components_partition "
-    "(the label classes are exactly the connected components, rows and columns are partitioned, row_perm is a permutation and so is "
-    "col_perm when no row is empty), permSearch_blocks_square, blockDiag_layout (lengths and content of indices/indptr/data). "
-    "RUN-TIME CHECKED in the driver for every case, not theorems: A*X = I and X*A = I exactly over the rationals for the assembled "
-    "block-diagonal inverse and for the un-permuted inverse (a failure is answered as model-failure and shows up as a disagreement). "
-    "Correspondence: csr layout (indices, indptr) exact, inverse values with tolerance 1e-9 for the python and numba paths, the "
-    "permutation as a partition, the permuted inverse with tolerance; error kinds for singular / non-square input.")
-ASSUMPTIONS = ["block values are exactly representable in binary64 and well conditioned (diagonally dominant), so that the LAPACK result is within 1e-9 of the exact rational inverse",
+    "FULL (algebra, Mathlib matrices over an arbitrary field): blockdiag_inv / blockdiag_isUnit_iff (inverse of a block-diagonal matrix = "
+    "block diagonal of the inverses, invertible iff all blocks are), perm_inv / perm_isUnit_iff (B = P_r A P_c implies A^-1 = P_c B^-1 P_r; "
+    "re-indexing by bijections preserves invertibility), permuted_blockdiag_inv (their composition = what invert_permuted_block_diag_matrix "
+    "computes), closed_pattern_blockdiag + components_give_blocks (a row/column classification closed under the non-zero pattern of an "
+    "invertible matrix exposes square, two-sided invertible blocks: the 'Block mismatch' assertion cannot fire on nonsingular input). "
+    "CORE (executable model over exact rationals): gaussJordan_left_inverse and gaussJordan_correct_partial are THEOREMS (if the exact "
+    "Gauss-Jordan returns X then X*A = I on lists, and A*X = 1, X*A = 1, A^-1 = X as Mathlib matrices); completeness ('nonsingular implies "
+    "some') is NOT proved. invertAll_correct, blockDiag_layout (zero sizes dropped, diagonal blocks extracted, indices/indptr/data are the "
+    "row-wise listing of the inverted blocks), components_closed + components_minimal (the label classes are exactly the connected "
+    "components of the bipartite pattern graph), components_partition (row_perm is a permutation; col_perm is one when no row is all zero; "
+    "the hypothesis is necessary), permSearch_blocks_square (meaning of the returned triple; every non-zero lies inside a reported square "
+    "block). RUN-TIME CHECKED in the driver on every case, NOT theorems: A*X = I and X*A = I exactly over the rationals for the assembled "
+    "block-diagonal inverse (dense reading of the model's csr arrays) and for the un-permuted inverse (a failure is answered as "
+    "model-failure and shows up as a disagreement). Correspondence: csr layout (format, shape, indices, indptr) exact, inverse values with "
+    "tolerance 1e-9 for the python and numba paths, the permutation as a partition (sorted blocks), the permuted inverse with the computed "
+    "and with the generator's permutation, error kinds for singular / non-square / empty input. The oracle checks the property on the real "
+    "code independently of the model (residuals of both inverters, layout, permutation validity, block-diagonality, blocks = connected "
+    "components by an independent union-find, residual of the permuted inverter). Open findings (known_findings.d/C37.json): stored zeros "
+    "outside the block pattern and duplicate stored entries break the inverters; the model follows the property (value semantics).")
+ASSUMPTIONS = ["block values are exactly representable in binary64 and well conditioned (row-wise diagonally dominant up to a row permutation), so that the LAPACK result is within 1e-9 of the exact rational inverse",
                "singular malformed blocks are singular in a way LAPACK detects exactly (zero row, zero column, duplicated row)"]
 
 _warm = {"done": False}
@@ -227,7 +240,7 @@ def _with_zero_sizes(rng, sizes):
 
 def gen_case(rng, tier):
     u = rng.random()
-    kind = "valid" if u < 0.83 else "malformed" if u < 0.93 else "dup_entries" if u < 0.97 else "stored_zeros_offblock"
+    kind = "valid" if u < 0.84 else "malformed" if u < 0.94 else "dup_entries" if u < 0.98 else "stored_zeros_offblock"
     if kind == "malformed":
         sub = rng.choice(["singular", "singular", "singular", "nonsquare", "empty"])
         if sub == "nonsquare":
@@ -291,8 +304,13 @@ def gen_case(rng, tier):
             kind = "valid"
         else:
             var["zeros_m"] = var.get("zeros_m", []) + [[pr[i], pc[j]] for i, j in rng.sample(off, min(len(off), rng.randint(1, 4)))]
-    return _assemble(blocks, _with_zero_sizes(rng, sizes) if rng.random() < 0.25 else list(sizes), pr, pc,
+    case = _assemble(blocks, _with_zero_sizes(rng, sizes) if rng.random() < 0.25 else list(sizes), pr, pc,
                      rng.choice(["csr", "csr", "csc"]), rng.choice(["csr", "csr", "csc"]), kind, variations=var, sing=sing)
+    # the permuted inverter is also run with the generator's own (possibly coarser) permutation when that differs from the
+    # computed one, i.e. when a block splits into several components, and on a third of the other cases
+    if not (len(set(rcomp)) > len(sizes) or kind != "valid" or rng.random() < 0.34):
+        case["skip_given"] = True
+    return case
 
 
 # ----------------------------------------------------------------------------- real code (runs inside the worker process)
@@ -369,11 +387,14 @@ def _real_run(case):
         for method in ("python", "numba"):
             out[method], raw[method] = _blockinv(case, method)
         out["perm"], raw["perm"] = _perm(case)
+        # the generator's permutation first: with the computed one the open finding (stored zeros outside the components) may
+        # corrupt memory, which must not spill over into the other result
+        if not case.get("skip_given"):
+            out["perminv_given"], raw["given"] = _perminv(case, _given_perm(case))
         if raw["perm"] is not None:
             out["perminv_found"], raw["found"] = _perminv(case, raw["perm"])
         else:
             out["perminv_found"], raw["found"] = {"err": "no-permutation"}, None
-        out["perminv_given"], raw["given"] = _perminv(case, _given_perm(case))
     return out, raw
 
 
@@ -416,9 +437,11 @@ class _Worker:
             self.p = None
 
 
-_pool = {"clean": None, "spare": None, "risky": None, "risky_key": None, "crashes": 0}
+_pool = {"clean": None, "spare": None, "risky": None, "risky_key": None, "crashes": 0, "cache_warm": False}
 MAX_CRASHES = 3      # after that many crashes of the shared worker the real code is not run any more in this process
-SHRINK_BUDGET = {"left": 250}  # total number of shrink candidates per process (each one costs a run of the real code)
+# total number of shrink candidates per process (each one costs a run of the real code; a candidate that needs a worker process
+# of its own costs an interpreter start)
+SHRINK_BUDGET = {"left": 200, "risky_left": 4}
 
 
 def _fresh():
@@ -427,8 +450,10 @@ def _fresh():
     if w is None or w.p is None or w.p.poll() is not None:
         w = _Worker()
         w.start()
-    _pool["spare"] = _Worker()
-    _pool["spare"].start()
+    _pool["spare"] = None
+    if _pool["cache_warm"]:  # otherwise the spare would compile the numba kernel a second time, concurrently
+        _pool["spare"] = _Worker()
+        _pool["spare"].start()
     return w
 
 
@@ -462,6 +487,8 @@ def _call(fn, case):
         r = _pool["risky"].call(fn, case)
         if "crash" in r:
             _pool["risky_key"] = None
+        else:
+            _pool["cache_warm"] = True
         return r
     if _pool["risky"] is not None:  # the case it served is over: discard it
         _pool["risky"].stop()
@@ -473,6 +500,8 @@ def _call(fn, case):
     r = _pool["clean"].call(fn, case)
     if "crash" in r:
         _pool["crashes"] += 1
+    else:
+        _pool["cache_warm"] = True
     return r
 
 
@@ -518,10 +547,12 @@ def model_ops(case):
     if case["kind"] == "nonsquare":
         return [dict(op="perm", **_mat_fields(case["m"]))]
     g = _given_perm(case)
-    return [dict(op="invert", sizes=case["sizes_arg"], **_mat_fields(case["bd"])),
-            dict(op="perm", **_mat_fields(case["m"])),
-            dict(op="pinv", **_mat_fields(case["m"])),
-            dict(op="invperm", row_perm=g[0], col_perm=g[1], sizes=g[2], **_mat_fields(case["m"]))]
+    ops = [dict(op="invert", sizes=case["sizes_arg"], **_mat_fields(case["bd"])),
+           dict(op="perm", **_mat_fields(case["m"])),
+           dict(op="pinv", **_mat_fields(case["m"]))]
+    if not case.get("skip_given"):
+        ops.append(dict(op="invperm", row_perm=g[0], col_perm=g[1], sizes=g[2], **_mat_fields(case["m"])))
+    return ops
 
 
 def _sing(o, kind):
@@ -533,7 +564,8 @@ def _sing(o, kind):
 def model_decode(outs, case):
     if case["kind"] == "nonsquare":
         return {"perm": outs[0]}
-    inv, perm, pinv, given = outs
+    inv, perm, pinv = outs[:3]
+    given = outs[3] if len(outs) > 3 else None
     if "blocks" in perm:
         perm = {"blocks": sorted([sorted(b[0]), sorted(b[1])] for b in perm["blocks"])}
     n = case["bd"]["shape"][0]
@@ -545,7 +577,10 @@ def model_decode(outs, case):
         pinv = {"err": "no-permutation"}
     if n == 0:  # glue outside the model: ArraySlicer cannot be built from an empty index array (ValueError of np.max)
         pinv = given = {"err": "ValueError"}
-    return {"python": py, "numba": nb, "perm": perm, "perminv_found": _sing(pinv, "ValueError"), "perminv_given": _sing(given, "ValueError")}
+    res = {"python": py, "numba": nb, "perm": perm, "perminv_found": _sing(pinv, "ValueError")}
+    if given is not None:
+        res["perminv_given"] = _sing(given, "ValueError")
+    return res
 
 
 def compare(impl, model, case):
@@ -602,8 +637,8 @@ def _resid(A, X):
 
 def _real_oracle(case, out, raw):
     """The property on the real code: A*inv = I = inv*A for both block inverters, with the csr layout of full diagonal blocks; the
-    computed permutation consists of two permutations and square blocks whose sizes sum to n, and the permuted matrix is zero
-    outside the diagonal blocks; the permuted inverter (with the computed and with the generator's permutation) returns the inverse."""
+    computed permutation consists of two permutations and square blocks whose sizes sum to n, the permuted matrix is zero
+    outside the diagonal blocks and the blocks are the connected components of the pattern; the permuted inverter (with the computed and with the generator's permutation) returns the inverse."""
     if case["kind"] in ("nonsquare", "singular"):
         return None  # the property speaks about nonsingular square input; error kinds are compared with the model
     n = case["bd"]["shape"][0]
@@ -645,8 +680,14 @@ def _real_oracle(case, out, raw):
         for j in range(n):
             if pb[i] != pb[j] and P[i, j] != 0:
                 return {"what": f"A[row_perm][:, col_perm] has a non-zero at ({i},{j}) outside the diagonal blocks of sizes {bs}", "key": "permsearch-not-blockdiag"}
+    # documented behaviour ("each block corresponds to a connected component"): the blocks are the connected components of the
+    # pattern, computed here by an independent union-find; all-zero rows cannot occur (the matrix is nonsingular)
+    rc, cc = _components([[Fraction(x) for x in r] for r in M.tolist()]) if n else ([], [])
+    comp_blocks = sorted([sorted(i for i in range(n) if rc[i] == k), sorted(j for j in range(n) if cc[j] == k)] for k in set(rc))
+    if len(comp_blocks) > 1 and _blocks_of(rp, cp, bs) != comp_blocks:
+        return {"what": f"the blocks of the computed permutation {_blocks_of(rp, cp, bs)} are not the connected components {comp_blocks} of the pattern", "key": "permsearch-not-components"}
     for name, cls in (("found", cls_found), ("given", cls_given)):
-        if n == 0:
+        if n == 0 or (name == "given" and case.get("skip_given")):
             break  # the property speaks about matrices with at least one block; the empty matrix is compared with the model only
         o, X = out["perminv_" + name], raw[name]
         if X is None:
@@ -667,7 +708,7 @@ def oracle(case):
         return None  # unknown; the crashes themselves were reported on the cases that caused them
     if "crash" in r:
         cls = _storage_class_m(case)[0]
-        return {"what": f"the interpreter aborted (return code {r['crash']}, heap corruption by an out-of-bounds write of the compiled kernel) while inverting; storage of the permuted matrix: {cls}",
+        return {"what": f"the interpreter running the real code on this case was killed (return code {r['crash']}: segmentation fault / abort inside compiled code); storage of the permuted matrix: {cls}",
                 "key": f"perminv:{cls}" if cls != "canonical" else "crash"}
     if "harness_exc" in r:
         raise RuntimeError(r["harness_exc"] + "\n" + r["tb"])
@@ -683,6 +724,10 @@ def shrink_candidates(case):
     for c in _shrink_candidates(case):
         if SHRINK_BUDGET["left"] <= 0:
             return
+        if _risky(c):
+            if SHRINK_BUDGET["risky_left"] <= 0:
+                continue
+            SHRINK_BUDGET["risky_left"] -= 1
         SHRINK_BUDGET["left"] -= 1
         yield c
 
